@@ -183,7 +183,7 @@ class Builder:
     """
 
     def __init__(self, g, rnd, cp="ibm437", placement="frag", debris=False, fat_garbage=False,
-                 boot_garbage=True, dirty=False):
+                 boot_garbage=True, dirty=False, lead05=False, res1_garbage=False):
         assert g.valid(), g.describe()
         self.g, self.rnd, self.cp = g, rnd, cp
         self.placement, self.debris, self.fat_garbage, self.dirty = placement, debris, fat_garbage, dirty
@@ -198,6 +198,8 @@ class Builder:
             free.sort(reverse=True)
         self.free = free
         self.boot_garbage = boot_garbage
+        self.lead05 = lead05
+        self.res1_garbage = res1_garbage
         self.bad = []
 
     def alloc(self, n):
@@ -250,6 +252,10 @@ class Builder:
                 lf = []
             else:
                 b11 = make_alias(name, taken, self.cp)
+                if self.lead05 and rnd.random() < 0.3 and (b"\x05" + b11[1:]) not in taken:
+                    # the alias is the other implementation's choice: one whose first character is OEM byte 0xE5,
+                    # stored as 0x05; the long-name checksum covers the bytes as stored
+                    b11 = b"\x05" + b11[1:]
                 lf = lfn_slots(name, sfn_checksum(b11))
             taken.add(b11)
             slots += lf
@@ -364,6 +370,9 @@ class Builder:
         common = struct.pack("<3s8sHBHBHHBHHHLL", b"\xEB\x58\x90", b"MSDOS5.0", g.bps, g.spc, g.rsvd, g.nfats, g.rootent,
                              tot16, g.media, g.fatsz if g.type != 32 else 0, 63, 255, 0, tot32)
         res1 = 1 if self.dirty else 0
+        if self.boot_garbage and self.res1_garbage:
+            # bits 1..7 of BS_Reserved1 are reserved (0x02 = NT's surface-scan flag): a foreign volume may carry them
+            res1 |= rnd.choice([0, 0, 0x02, 0x80, 0xFE, 0x7C])
         lab = (label or "NO NAME").encode(self.cp).ljust(11)[:11]
         if g.type == 32:
             ext = struct.pack("<LHHLHH12sBBBL11s8s", g.fatsz, 0, 0, root_first, g.fsinfo, g.bkboot, b"\0" * 12,
